@@ -82,9 +82,12 @@ def oracle_weight(case) -> Result:
     if case.get('conv_shape'):
         x = x.view(x.shape[0], -1, 1, 1) if x.shape[1] % 2 else x.view(x.shape[0], -1, 2)
     C = x.shape[0]
-    q_int = MinMaxWeight(b, C, symmetric=True, dequantize=False)
-    q_deq = MinMaxWeight(b, C, symmetric=True, dequantize=True)
+    b0 = case.get('built_at', b)
+    q_int = MinMaxWeight(b0, C, symmetric=True, dequantize=False)
+    q_deq = MinMaxWeight(b0, C, symmetric=True, dequantize=True)
     for q in (q_int, q_deq):
+        if b0 != b:
+            q.precision = b     # the public setter: the object now declares b bits
         if case.get('eval'):
             q.eval()
         if case.get('warm'):
@@ -150,8 +153,12 @@ def oracle_act(case) -> Result:
     res = Result()
     b, clip = case['bits'], case['clip']
     x = act_tensor(case)
-    q_int = PACTAct(b, init_clip_val=clip, dequantize=False)
-    q_deq = PACTAct(b, init_clip_val=clip, dequantize=True)
+    b0 = case.get('built_at', b)
+    q_int = PACTAct(b0, init_clip_val=clip, dequantize=False)
+    q_deq = PACTAct(b0, init_clip_val=clip, dequantize=True)
+    if b0 != b:
+        q_int.precision = b     # the public setter: the object now declares b bits
+        q_deq.precision = b
     with torch.no_grad():
         yi = q_int(x.clone())
         yd = q_deq(x.clone())
@@ -256,7 +263,10 @@ def weight_cases(draw):
             'kinds': draw(st.lists(st.sampled_from(CH_KINDS), min_size=C, max_size=C)),
             'conv_shape': draw(st.booleans()), 'xseed': draw(st.integers(0, 10 ** 6)),
             # call history of the quantizer object: its output depends on the current input only
-            'eval': draw(st.booleans()), 'warm': draw(st.booleans())}
+            'eval': draw(st.booleans()), 'warm': draw(st.booleans()),
+            # one case in four: the object was constructed at another precision and re-declared
+            # through the `precision` setter
+            **({'built_at': draw(st.sampled_from([2, 4, 8]))} if draw(st.integers(0, 3)) == 0 else {})}
 
 
 @st.composite
@@ -264,7 +274,8 @@ def act_cases(draw):
     e = draw(st.floats(min_value=math.log(0.05), max_value=math.log(1e3)))
     return {'bits': draw(st.sampled_from(A_BITS)), 'clip': round(math.exp(e), 5),
             'n': draw(st.sampled_from([4, 32, 128])), 'exp': draw(st.integers(-30, 13)),
-            'xseed': draw(st.integers(0, 10 ** 6))}
+            'xseed': draw(st.integers(0, 10 ** 6)),
+            **({'built_at': draw(st.sampled_from([2, 4, 8]))} if draw(st.integers(0, 3)) == 0 else {})}
 
 
 @st.composite
